@@ -362,13 +362,18 @@ def oracle_pass(chk, exe, case_list, label="C11x"):
         for c in batch:                                            # find the case
             c = list(c)
             d = _first_oracle_diff(exe, c)
+            for _ in range(6 if any(o.startswith("par ") for o in c) else 0):      # threads: a race may need several runs
+                d = d or _first_oracle_diff(exe, c)
             if d is None:
                 continue
             hit = True
             i, ei, li = d
-            start = max([j for j in range(i + 1) if c[j].startswith("new ")] or [0])
+            # several handle slots in play: the objects created earlier matter, keep the whole prefix
+            start = 0 if any(o.startswith("use ") for o in c[: i + 1]) else max([j for j in range(i + 1) if c[j].startswith("new")] or [0])
             small = _shrink_oracle(exe, c[start: i + 1])
-            d2 = _first_oracle_diff(exe, small) or (len(small) - 1, ei, li)
+            d2 = _first_oracle_diff(exe, small)
+            if d2 is None:                                          # never report a replay that does not fail by itself
+                small, d2 = c[: i + 1], (i, ei, li)
             note = ""
             if d2[2] == GOST_CARRY_WRONG:
                 note = " (the 256-bit checksum lost a carry: historical `a[i] < old || a[i] < b[i]` in sum_256; reference digest " + GOST_CARRY_DIGEST + ")"
